@@ -463,12 +463,26 @@ fn qv_copy_actions(out: &mut Vec<QvAct>) {
     }
 }
 
-fn qv_start(len: usize, cap: bool) -> (QVectorBuilder, Vec<u8>) {
-    let mut b = if cap { QVectorBuilder::with_capacity(len + 7) } else { QVectorBuilder::new() };
+/// start kind (`how`, or `cap_flag` when how = 0): 0 = new() then pushes, 1 = with_capacity(len + 7) then pushes, 2 = the
+/// builder collected from an iterator (FromIterator), 3 = new() then one extend
+fn qv_start(len: usize, cap_flag: bool, how: u8) -> (QVectorBuilder, Vec<u8>) {
+    let cap = if how != 0 { how } else { cap_flag as u8 };
     let v: Vec<u8> = (0..len).map(|i| ((i * 7 + i / 5) % 4) as u8).collect();
-    for &x in &v {
-        b.push(x);
-    }
+    let b = match cap {
+        2 => v.iter().copied().collect::<QVectorBuilder>(),
+        3 => {
+            let mut b = QVectorBuilder::new();
+            b.extend(v.iter().copied());
+            b
+        }
+        c => {
+            let mut b = if c == 1 { QVectorBuilder::with_capacity(len + 7) } else { QVectorBuilder::new() };
+            for &x in &v {
+                b.push(x);
+            }
+            b
+        }
+    };
     (b, v)
 }
 
@@ -536,6 +550,7 @@ fn observe_qv(ctx: &mut Ctx, b: &QVectorBuilder, vals: &[u8]) {
 struct QvModel {
     start_len: usize,
     cap: bool,
+    how: u8,
     max_depth: u8,
 }
 
@@ -543,7 +558,7 @@ impl Model for QvModel {
     type State = QvSt;
     type Action = QvAct;
     fn init_states(&self) -> Vec<QvSt> {
-        let (real, vals) = qv_start(self.start_len, self.cap);
+        let (real, vals) = qv_start(self.start_len, self.cap, self.how);
         let built = built_digest(&real);
         vec![QvSt { vals, real, poison: false, depth: 0, built, lineage: 0 }]
     }
@@ -583,8 +598,8 @@ impl Model for QvModel {
     }
 }
 
-fn replay_qv_history(ctx: &mut Ctx, start_len: usize, cap: bool, actions: &[QvAct]) {
-    let (mut real, mut vals) = qv_start(start_len, cap);
+fn replay_qv_history(ctx: &mut Ctx, start_len: usize, cap: bool, how: u8, actions: &[QvAct]) {
+    let (mut real, mut vals) = qv_start(start_len, cap, how);
     for (j, &a) in actions.iter().enumerate() {
         let mut v2 = vals.clone();
         if ctx.total("mutator", "", j as u128, 0, 0, || qv_apply(Some(&mut real), &mut v2, a)).is_none() {
@@ -595,14 +610,14 @@ fn replay_qv_history(ctx: &mut Ctx, start_len: usize, cap: bool, actions: &[QvAc
     observe_qv(ctx, &real, &vals);
 }
 
-fn run_qv_model(ctx: &mut Ctx, start_len: usize, cap: bool, depth: u8) {
+fn run_qv_model(ctx: &mut Ctx, start_len: usize, cap: bool, how: u8, depth: u8) {
     ctx.set_ty("QVectorBuilder");
     let mut scratch = Ctx::new(&ctx.property, &ctx.profile, &ctx.tier);
     scratch.ty = ctx.ty;
     scratch.case_index = ctx.case_index;
     scratch.case_desc = ctx.case_desc.clone();
     *SCRATCH.lock().unwrap() = Some(scratch);
-    let checker = QvModel { start_len, cap, max_depth: depth }.checker().threads(1).spawn_bfs().join();
+    let checker = QvModel { start_len, cap, how, max_depth: depth }.checker().threads(1).spawn_bfs().join();
     let unique = checker.unique_state_count() as u64;
     let total = checker.state_count() as u64;
     ctx.add("states", unique);
@@ -617,9 +632,9 @@ fn run_qv_model(ctx: &mut Ctx, start_len: usize, cap: bool, depth: u8) {
         let actions: Vec<QvAct> = path.into_actions();
         ctx.count("counterexample_paths");
         let saved = ctx.case_desc.clone();
-        ctx.case_desc = serde_json::to_value(HCase::QvHist { start_len, cap, actions: actions.clone() }).unwrap();
+        ctx.case_desc = serde_json::to_value(HCase::QvHist { start_len, cap, actions: actions.clone(), how }).unwrap();
         let before = ctx.total_viols;
-        replay_qv_history(ctx, start_len, cap, &actions);
+        replay_qv_history(ctx, start_len, cap, how, &actions);
         if ctx.total_viols == before {
             ctx.violation("<explorer>", "nondeterministic", format!("{actions:?}"), "counterexample reproduces".into(), "did not reproduce on re-execution".into());
         }
@@ -1058,8 +1073,8 @@ enum HCase {
     BvModel { start: BvStart, prefix: Vec<BvAct>, depth: u8 },
     BvHist { start: BvStart, actions: Vec<BvAct> },
     BvBits { bits: String },
-    QvModel { start_len: usize, cap: bool, depth: u8 },
-    QvHist { start_len: usize, cap: bool, actions: Vec<QvAct> },
+    QvModel { start_len: usize, cap: bool, depth: u8, #[serde(default)] how: u8 },
+    QvHist { start_len: usize, cap: bool, actions: Vec<QvAct>, #[serde(default)] how: u8 },
     QvCollect { gen: Gen, ty: u8, offset: i8 },
     IterTree { alias: String, elem: String, gen: Gen, vmap: String, extra: usize },
     IterBits { gen: BitGen, extra: usize },
@@ -1082,10 +1097,10 @@ impl Case for HCase {
                 observe_bvm(ctx, &b, &r, true);
                 observe_conversions(ctx, &b, &r, true);
             }
-            HCase::QvModel { start_len, cap, depth } => run_qv_model(ctx, *start_len, *cap, *depth),
-            HCase::QvHist { start_len, cap, actions } => {
+            HCase::QvModel { start_len, cap, depth, how } => run_qv_model(ctx, *start_len, *cap, *how, *depth),
+            HCase::QvHist { start_len, cap, actions, how } => {
                 ctx.set_ty("QVectorBuilder");
-                replay_qv_history(ctx, *start_len, *cap, actions)
+                replay_qv_history(ctx, *start_len, *cap, *how, actions)
             }
             HCase::QvCollect { gen, ty, offset } => run_qv_collect(ctx, gen, *ty, *offset),
             HCase::IterTree { alias, elem, gen, vmap, extra } => with_tree!(alias.as_str(), elem.as_str(), run_iter_tree(ctx, gen, vmap, *extra)),
@@ -1137,10 +1152,16 @@ fn enumerate(args: &Args) -> Vec<HCase> {
             let lens = [0usize, 1, 31, 32, 33, 63, 64, 65, 95, 96, 97, 126, 127, 128, 129, 191, 192, 193, 254, 255, 256, 257, 383, 384, 385, 511, 512, 513];
             for &n in &lens {
                 let d = if n == 0 { if th { 6 } else { 5 } } else if th { 5 } else { 4 };
-                v.push(HCase::QvModel { start_len: n, cap: false, depth: d });
+                v.push(HCase::QvModel { start_len: n, cap: false, depth: d, how: 0 });
             }
-            v.push(HCase::QvModel { start_len: 0, cap: true, depth: 3 });
-            v.push(HCase::QvModel { start_len: 255, cap: true, depth: 3 });
+            v.push(HCase::QvModel { start_len: 0, cap: true, depth: 3, how: 0 });
+            v.push(HCase::QvModel { start_len: 255, cap: true, depth: 3, how: 0 });
+            // builders obtained by collect (FromIterator) and by one extend, around the word / line boundaries
+            for how in [2u8, 3] {
+                for n in [0usize, 1, 127, 128, 129, 255, 256, 257, 512] {
+                    v.push(HCase::QvModel { start_len: n, cap: false, depth: if th { 4 } else { 3 }, how });
+                }
+            }
             for g in tiny_all(4, if th { 7 } else { 6 }) {
                 for ty in 0..12u8 {
                     for offset in [0i8, 1, 7, 100, -1, -3, -100] {
